@@ -65,6 +65,8 @@ func VerifHarness_C19_SafeBalance() {
 func VerifHarness_C19_SdkIntTrim() {
 	x := nondetDec("x")
 	xv := zz.QOf(x)
+	// SdkIntTrim documents a panic above the 256-bit range of sdk.Int
+	zz.Assume(zz.QLt(zz.QAbs(xv), zz.QPow10(76)))
 	i := x.SdkIntTrim()
 	zz.Assert(zz.QEq(zz.QOf(i), zz.QTrunc(xv)), "sdkinttrim: truncation toward zero")
 	zz.Assert(zz.QEq(zz.QOf(x), xv), "sdkinttrim: operand unchanged")
